@@ -157,8 +157,11 @@ def run_rotation(env, p):
         h = LogfileHandler(d, 'root', max_days=retention)
         h.stream = h._open()
         existing = sorted(f for f in os.listdir(logdir) if f != 'current')
-        for rollover in range(2):
-            fake.next_day()
+        # two rollovers on consecutive days, then two more on the same day (after days without a record the log
+        # handler rolls over once per record until it has caught up: the file name stays the same)
+        for advance in (True, True, False, False):
+            if advance:
+                fake.next_day()
             before = sorted(f for f in os.listdir(logdir) if f != 'current')
             try:
                 h.doRollover()
